@@ -83,6 +83,7 @@ def lex_text(rs, cfg, rng, vary=True):
     if c99:
         prologue = ('%{\nstatic void fv_buffer_op(int op, long a, long b FV_PROTO_LAST);\n'
                     'static void yypanic(const char *msg, yyscan_t yyscanner);\n'
+                    'static void yyless(int n, yyscan_t yyscanner);\n'
                     + ('' if cfg.stdio else 'static int yyread(char *buf, size_t max_size, yyscan_t yyscanner);\n')
                     + ('void *yyalloc(size_t n, yyscan_t yyscanner);\nvoid *yyrealloc(void *p, size_t n, yyscan_t yyscanner);\n'
                        'void yyfree(void *p, yyscan_t yyscanner);\n' if cfg.ledger else '') + '%}')
